@@ -757,9 +757,33 @@ func (g *GenState) GenPrelude(t *rapid.T) []Action {
 // GenAction draws the next action from the current world.
 func (g *GenState) GenAction(t *rapid.T) Action {
 	if g.F.Prop == "C20" && pct(t, "boundary_msg", 15) {
-		return g.genBoundaryMsg(t)
+		return g.withRefs(g.genBoundaryMsg(t))
 	}
-	return g.genOfKind(t, g.genKind(t, nil))
+	return g.withRefs(g.genOfKind(t, g.genKind(t, nil)))
+}
+
+// withRefs adds the symbolic form of the context / request the action targets
+func (g *GenState) withRefs(a Action) Action {
+	if a.CtxID != "" {
+		for i, id := range g.CtxIDs {
+			if id == a.CtxID {
+				a.CtxRef = &[]int{i}[0]
+				break
+			}
+		}
+	}
+	if a.ReqID != "" {
+		for i, id := range g.ReqIDs {
+			if id == a.ReqID {
+				a.ReqRef = &[]int{i}[0]
+				break
+			}
+		}
+	}
+	for i := range a.Msgs {
+		a.Msgs[i] = g.withRefs(a.Msgs[i])
+	}
+	return a
 }
 
 const maxI64 = int64(^uint64(0) >> 1)
